@@ -26,7 +26,7 @@ RULE = ("scenario = generated config file (1..4 servers; args with spaces/quotes
         "absent/int/float/numeric string; extra keys) or a malformed-config class, x entry point {load_config, test_server, run_command} x child "
         "faults (answer latency, chunked answers, junk lines before the answer, one server unstartable); non-trivial = an entry point that "
         "spawns was exercised with a non-default argument/env shape or a fault")
-PROBES = ["run_command_multi_server", "one_server_unstartable", "env_configured", "args_with_spaces_or_unicode", "malformed_config",
+PROBES = ["unknown_name_after_valid_one", "run_command_multi_server", "one_server_unstartable", "env_configured", "args_with_spaces_or_unicode", "malformed_config",
           "junk_before_answer", "timeout_numeric_string"]
 TIERS = {"quick": {"runs": 8000, "wall": 45.0}, "thorough": {"runs": 300000, "wall": 560.0}}
 ASSUMPTIONS = [
@@ -86,7 +86,7 @@ def generate(rng: random.Random, tier: str) -> dict:
         names = [s["name"] for s in rng.sample(servers, k)]
     else:
         names = [rng.choice(servers)["name"]]
-    return {"v": 1, "entry": entry, "servers": servers, "names": names, "malformed": malformed,
+    return {"v": 1, "entry": entry, "servers": servers, "names": names, "malformed": malformed, "unknown_pos": rng.randrange(0, 5),
             "cmd_name": rng.choice(["cmd", "interactive_mode", "chat_run"]), "extra_top": rng.random() < 0.2}
 
 
@@ -134,7 +134,8 @@ def execute(scn: dict) -> dict:
     if not names:
         names = [scn["servers"][0]["name"]] if scn["servers"] else ["nothing"]
     if scn["malformed"] == "unknown_server":
-        names = ["does-not-exist"] + names[1:]
+        pos = scn.get("unknown_pos", 0) % (len(names) + 1) if scn["entry"] == "run_command" else 0
+        names = (names[:pos] + ["does-not-exist"] + names[pos:]) if scn["entry"] == "run_command" else ["does-not-exist"]
     d = _scratch_dir()
     path = os.path.join(d, "cfg.json")
     if scn["malformed"] == "missing_file":
@@ -359,6 +360,8 @@ def execute(scn: dict) -> dict:
             if child.alive:
                 V("cleanup", f"{entry}:child-left-running", f"witness child for {n_} still running 3 s after the entry point finished")
         if entry == "run_command":
+            if mal == "unknown_server" and names and names[0] != "does-not-exist" and "does-not-exist" in names:
+                probe("unknown_name_after_valid_one")
             if len(want) > 1:
                 probe("run_command_multi_server")
             startable = [n for n in want if by_name[n].get("fault") != "unstartable"]
